@@ -62,7 +62,7 @@ META = dict(
     engine="I",
     technique="exhaustive small-scope enumeration of SELECT column lists over name-colliding joined tables, executed on SQLite, every key lookup checked against values known from construction",
     design_ref="DESIGN.md §5 C11",
-    level_text="Every ordered selection (with repetition) of <=3 (quick) / <=4 (thorough) expressions from a pool of 12 (same-named columns of "
+    level_text="Every ordered selection (with repetition) of <=3 (quick; thorough: <=4 at the default label_length) expressions from a pool of 12 (same-named columns of "
     "three joined tables, labels that collide with column names, with table_column names and with auto-generated de-duplication labels, an "
     "80-character label, an unnamed literal_column, a correlated scalar subquery, the same column twice) x 3 label styles x label_length "
     "None/6/10 x 8 statement forms (plain select, select from subquery, from CTE, UNION ALL, select with a textual element that expands to two columns so that columns are matched by name, text().columns(positional), text().columns(named), "
@@ -80,7 +80,7 @@ META = dict(
     "expressions bear a common name (collision exercised)",
     assumptions=["all cell values of a joined row are pairwise distinct (by construction)", "SQLite returns the columns in SELECT-list order"],
     bounds=dict(quick="all selections of <=3 of 12 expressions (1884) x 3 styles x label_length None/6 x 8 forms",
-                thorough="all selections of <=4 of 12 expressions (22620) x 3 styles x 3 label_length x 8 forms"),
+                thorough="all selections of <=4 of 12 expressions (22620) x 3 styles x 8 forms at label_length None; <=3 (1884) at label_length 6 and 10"),
 )
 
 # ------------------------------------------------------------------ world
@@ -434,7 +434,7 @@ def shards(tier, seed):
     for ll in (LABEL_LENGTHS if tier == "thorough" else LABEL_LENGTHS[:2]):
         for style in STYLES:
             for w in WRAPPERS:
-                parts = 1 if tier == "quick" else 4
+                parts = 8 if (tier == "thorough" and ll is None) else 1
                 for p in range(parts):
                     out.append((ll, style, w, p, parts))
     return out
@@ -442,7 +442,7 @@ def shards(tier, seed):
 
 def run_shard(shard, tier, rec):
     ll, style, wrapper, p, parts = shard
-    maxlen = 3 if tier == "quick" else 4
+    maxlen = 4 if (tier == "thorough" and ll is None) else 3
     for idx, sel in enumerate(selections(maxlen, len(POOL))):
         if idx % parts != p:
             continue
